@@ -10,7 +10,7 @@ PER_FILE = 500
 CASE_TIMEOUT = 10
 RULE = ('timestamps are whole hours from 2020-01-01 (index points on a 6-hour grid with gaps, bounds on a 3-hour grid so that they fall '
         'before / on / between / after index points, half-day offsets included). slice cases: one Series or 1-2 column DataFrame, lb and ub '
-        'each missing, a datetime or a time of day (all combinations, windows with start later than end included), every bracket string '
+        'each missing, a datetime or a time of day; values finite, NaN or +-inf (carried through) (all combinations, windows with start later than end included), every bracket string '
         '"[]" "[)" "(]" "()" plus the o/c spellings, the default and malformed strings; one fixed 7-point series is swept over all 21 x 21 '
         'bound positions x 4 brackets. stitch cases: 1-4 series, increasing / non-strict / decreasing bound lists given as ub, lb or both, '
         'n in 1..number of series. unslice cases: stitch, df_unslice, stitch again. Every result is compared cell by cell (index and values) '
@@ -32,6 +32,7 @@ EXHAUSTIVE = {'quick': False, 'thorough': False}
 E0 = datetime.datetime(2020, 1, 1)
 DAY = 24
 BRACKETS = ['[]', '[)', '(]', '()']
+PINF, NINF = 10 ** 9, -10 ** 9      # +inf / -inf cells: values are carried, never computed, so the model sees two reserved integers
 
 # ------------------------------------------------------------------ Coq side
 def coq_runner(case):
@@ -78,17 +79,21 @@ def py_bound(b):
     if b is None: return None
     return T(b[1]) if b[0] == 'at' else datetime.time(hour=b[1])
 
+def fl(v):
+    return np.nan if v is None else np.inf if v == PINF else -np.inf if v == NINF else float(v)
+
 def mk_series(s):
-    return pd.Series([np.nan if v is None else float(v) for _, v in s], pd.DatetimeIndex([T(t) for t, _ in s]), dtype=float)
+    return pd.Series([fl(v) for _, v in s], pd.DatetimeIndex([T(t) for t, _ in s]), dtype=float)
 
 def build_slice_arg(case):
     idx = pd.DatetimeIndex([T(t) for t in case['ts']])
-    a = np.array([[np.nan if c is None else float(c) for c in r] for r in case['rows']], dtype=float).reshape(len(case['rows']), case['k'])
+    a = np.array([[fl(c) for c in r] for r in case['rows']], dtype=float).reshape(len(case['rows']), case['k'])
     return pd.Series(a[:, 0], idx) if case['form'] == 'S' else pd.DataFrame(a, idx)
 
 def canon_cell(v):
     v = float(v)
     if math.isnan(v): return 'NaN'
+    if math.isinf(v): return PINF if v > 0 else NINF
     return int(v) if v == int(v) else 'x' + v.hex()
 
 def observe(x):
@@ -312,7 +317,7 @@ def slice_case(ts, k, form, lb, ub, oc, vals=None, **kw):
 def rand_series(rng, base):
     n = rng.choice([0, 1, 2, 3, 4, 5, 6])
     ts = rand_index(rng, n)
-    return [[t, None if rng.random() < 0.1 else base + i] for i, t in enumerate(ts)]
+    return [[t, None if rng.random() < 0.1 else rng.choice([PINF, NINF]) if rng.random() < 0.1 else base + i] for i, t in enumerate(ts)]
 
 def rand_ubs(rng, m, strict=False):
     u = rng.choice([-6, 0, 6, 12, 15]); out = []
@@ -339,7 +344,7 @@ def gen_cases(rng, tier):
         form = rng.choice(['S', 'D']); k = 1 if form == 'S' else rng.choice([1, 2])
         r = rng.random()
         oc = rng.choice(BRACKETS) if r < 0.6 else None if r < 0.7 else rng.choice(['oc', 'co', 'cc', 'oo', 'OC', 'c)', '[o', '']) if r < 0.9 else rng.choice(['x]', '[', '[]]', '<>', '[ '])
-        vals = [[None if rng.random() < 0.15 else 100 * (j + 1) + i for j in range(k)] for i in range(n)]
+        vals = [[None if rng.random() < 0.15 else rng.choice([PINF, NINF]) if rng.random() < 0.1 else 100 * (j + 1) + i for j in range(k)] for i in range(n)]
         lb, ub = rand_bound(rng, ts), rand_bound(rng, ts)
         tup = rng.random() < 0.05 and ub is not None
         cases.append(slice_case(ts, k, form, lb, ub, oc, vals, tuple=tup))
@@ -369,7 +374,7 @@ def gen_cases(rng, tier):
         ss = []
         for i in range(m):
             ts = rand_index(rng, rng.choice([0, 2, 3, 4, 6]))
-            ss.append([[t, 1000 * (i + 1) + q] for q, t in enumerate(ts)])
+            ss.append([[t, rng.choice([PINF, NINF]) if rng.random() < 0.1 else 1000 * (i + 1) + q] for q, t in enumerate(ts)])
         cases.append(dict(kind='unslice', ss=ss, n=rng.randrange(1, m + 1), ubs=rand_ubs(rng, m, strict=True)))
     return cases
 
